@@ -98,6 +98,7 @@ structure Attempt where
   fp : Bytes                   -- `H` of the source stream when the loop was entered
   time : Nat
   ok : Bool                    -- every command ran and succeeded
+  src : List (Bytes × Bytes)   -- ghost: the (name, content) of every matched source when the loop was entered
 deriving Repr, DecidableEq
 
 structure State where
@@ -226,6 +227,10 @@ the length of its content, 8 bytes each — they say where every name and every 
 def lenTable (nm : Path → Bytes) (fs : FS) : List Path → Bytes
   | [] => []
   | p :: l => be64 (nm p).length ++ be64 (contentOf fs p).length ++ lenTable nm fs l
+
+/-- the list of (name, content) of the matched sources: what the fingerprint is a fingerprint OF -/
+def srcList (pr : Proj) (t : Task) (fs : FS) : List (Bytes × Bytes) :=
+  (srcsNow t fs).map (fun p => (nameOf pr t p, contentOf fs p))
 
 /-- the checksum: `%x%x` of the outer hash of the stream, then `%016x` of the hash of the length
 table.  (Before fix F8B: the first half alone.) -/
@@ -376,7 +381,7 @@ def runBody (cfg : Cfg) (H : Hashes) (pr : Proj) (i : Nat) (t : Task) (dry : Boo
   else
     let s1 := mkdirTask t s
     let r := cmdLoop e t.ignoreError t.cmds 0 s1.files []
-    let att : Attempt := ⟨i, fpNow H pr t s1.files, e.now, decide (r.2.2 = .done)⟩
+    let att : Attempt := ⟨i, fpNow H pr t s1.files, e.now, decide (r.2.2 = .done), srcList pr t s1.files⟩
     let s2 : State := { s1 with files := r.1, log := s1.log ++ [att] }
     -- (a failure swallowed by `ignore_error` is no failure of the task: no `statusOnError` — F8C; before
     -- it the TASK-level `ignore_error` still went through the clean-up: `C05_ignored_failure_old_rule`)
@@ -551,5 +556,15 @@ def goodRun (H : Hashes) (pr : Proj) (i : Nat) (t : Task) (s : State) : Bool :=
      | some a => a.ok && (srcsNow t s.files).all (fun p => decide (mtimeOf s.files p ≤ a.time))
      | none => false)
   | .none => false
+
+/-- `goodRun` for method checksum read off the GHOST source lists instead of the hashes: "the most
+recent attempt at `t`'s commands for the PRESENT (names, contents) of the matched sources ran them all
+successfully, and the generates exist" — the statement of the property itself; `goodRun` compares
+fingerprints, which a constant hash would make vacuous (`C04_partial_src`) -/
+def goodRunSrc (pr : Proj) (i : Nat) (t : Task) (s : State) : Bool :=
+  gensOk t s.files &&
+    (match lastAtt (fun a => decide (a.task = i ∧ a.src = srcList pr t s.files)) s.log with
+     | some a => a.ok
+     | none => false)
 
 end TaskModel.Finger
